@@ -416,3 +416,70 @@ Example C14_declaration_conditions_reject :
   versions_stmt_declared (set_blocks (loop_graph 1)
      [ {| b_index := 0%N; b_depth := 0%N; b_stmts := [SSubst m0 {| vn_name := [121%N]; vn_suffix := None; vn_version := Some 3%N |} OpVar (ENum 0 k0) None (Some TLocal)]; b_preds := []; b_succs := [] |} ]) = false.
 Proof. vm_compute. split; reflexivity. Qed.
+
+(* ---- fourth audit: what ssa_check alone accepts although the text of C14 excludes it.  Model.SsaStrict.ssa_strict
+   (phi_args_ok, fresh_bases_ok, locals_versioned_ok, decl_table_ok; evaluated with ssa_check on every real graph by
+   the driver command ssacheck) closes the holes; the two theorems say what the first two conditions mean on paths
+   (the other two are statements about the text of the graph: Proofs.SsaStrictProofs.locals_versioned_spec,
+   locals_versioned_unversioned_reads, decl_table_spec - unfoldings, not obligations). ---- *)
+Require Import Model.SsaStrict Proofs.SsaStrictProofs.
+
+(* "or is a phi argument defined on an incoming path": every argument of a phi has the key of the phi's target and
+   is, for SOME predecessor p of the block, the version of that key that is running at the end of EVERY path from
+   the entry ending in p (for an argument without a version: no version is running there) - a phi argument is a read
+   made along an incoming edge and names the most recent assignment on it.  An argument that arrives along no
+   edge (the version of the immediate dominator at an if/else join, a foreign variable, the phi's own target) is
+   rejected. *)
+Theorem C14_phi_arguments_arrive : forall c idom j b s x args a,
+  ssa_check c idom = true -> ssa_strict c idom = StrictOk ->
+  nth_error (c_blocks c) j = Some b -> In s (fst (leading_phis (b_stmts b))) ->
+  phi_parts s = Some (x, args) -> In a args ->
+  key_of a = key_of x /\
+  exists p, In p (b_preds b) /\
+    forall pi L, path_from_entry c (pi ++ [N.to_nat p]) ->
+                 exec_path c (params_map (c_params c)) (pi ++ [N.to_nat p]) = Some L ->
+                 vget L (key_of x) = vn_version a.
+Proof. exact ssa_strict_phi_args_arrive. Qed.
+Print Assumptions C14_phi_arguments_arrive.
+
+(* C14_read_defined_on_every_path with its first disjunct tightened: the base of an element-wise update that is
+   read without a running version names a version that NO statement of the graph defines (so a read is dominated by
+   its definition, is a parameter's version, or has no definition at all - never a definition that does not
+   dominate it) *)
+Theorem C14_read_defined_or_fresh_on_every_path : forall c idom pi bi b s v n,
+  ssa_check c idom = true -> ssa_strict c idom = StrictOk ->
+  path_from_entry c (pi ++ [bi]) ->
+  nth_error (c_blocks c) bi = Some b -> In s (b_stmts b) -> is_phi_stmt s = false ->
+  In v (stmt_reads s) -> vn_version v = Some n ->
+  (update_base s = Some v /\ ~ In v (all_defs c)) \/
+  vget (params_map (c_params c)) (key_of v) = Some n \/
+  defined_on c (pi ++ [bi]) (key_of v) n.
+Proof. exact ssa_strict_read_defined. Qed.
+Print Assumptions C14_read_defined_or_fresh_on_every_path.
+
+(* the loop graph passes all four conditions; ssa_check accepts each of the four variants below and ssa_strict
+   rejects it: a phi argument x.7 that arrives along no edge; a first element-wise update that defines the
+   version it reads; a local y assigned without a version and absent from the table; a table with an extra x.9 *)
+Definition yv (o : option N) : vname := {| vn_name := [121%N]; vn_suffix := None; vn_version := o |}.
+Definition strict_variant (phi_extra : list vname) (extra : list stmt) (decls : list (vname * vtype)) : cfg :=
+  {| c_kind := KFunction; c_params := [xv 0];
+     c_decls := [(xv 0, TLocal); (xv 1, TLocal); (xv 2, TLocal)] ++ decls;
+     c_blocks :=
+       [ {| b_index := 0%N; b_depth := 0%N; b_stmts := extra; b_preds := []; b_succs := [1%N] |};
+         {| b_index := 1%N; b_depth := 1%N;
+            b_stmts := [ SSubst m0 (xv 1) OpVar (EPhi ([xv 0; xv 2] ++ phi_extra) k0) None (Some TLocal);
+                         SSubst m0 (xv 2) OpVar (EInfix IAdd (EVar (xv 1) k0) (ENum 1 k0) k0) None (Some TLocal) ];
+            b_preds := [0%N; 1%N]; b_succs := [1%N] |} ] |}.
+Example C14_strict_accepts_and_rejects :
+  let idom := [None; Some 0%N] in
+  (ssa_check (strict_variant [] [] []) idom, ssa_strict (strict_variant [] [] []) idom) = (true, StrictOk) /\
+  (ssa_check (strict_variant [xv 7] [] [(xv 7, TLocal)]) idom,
+   ssa_strict (strict_variant [xv 7] [] [(xv 7, TLocal)]) idom) = (true, BadPhiArgs) /\
+  (ssa_check (strict_variant [] [SSubst m0 (yv (Some 0%N)) OpVar (EUpdate (yv (Some 0%N)) [AIdx (ENum 0 k0)] (ENum 1 k0) k0) None (Some TLocal)]
+                             [(yv (Some 0%N), TLocal)]) idom,
+   ssa_strict (strict_variant [] [SSubst m0 (yv (Some 0%N)) OpVar (EUpdate (yv (Some 0%N)) [AIdx (ENum 0 k0)] (ENum 1 k0) k0) None (Some TLocal)]
+                              [(yv (Some 0%N), TLocal)]) idom) = (true, BadFreshBase) /\
+  (ssa_check (strict_variant [] [SSubst m0 (yv None) OpVar (ENum 1 k0) None (Some TLocal)] []) idom,
+   ssa_strict (strict_variant [] [SSubst m0 (yv None) OpVar (ENum 1 k0) None (Some TLocal)] []) idom) = (true, LocalUnversioned) /\
+  (ssa_check (strict_variant [] [] [(xv 9, TLocal)]) idom, ssa_strict (strict_variant [] [] [(xv 9, TLocal)]) idom) = (true, BadTable).
+Proof. vm_compute. repeat split; reflexivity. Qed.
